@@ -2667,8 +2667,34 @@ def run_c12(ctx) -> Corr:
 # ---- C19 --------------------------------------------------------------------------------------
 
 
-def older_types_history(rng, v_old: str, cross: bool, avoid_hb: bool, length: int):
+# what a gateway may report as its version in the middle of a history: every version of the table first
+REPORT_STRINGS = list(lib.VERSIONS) + ["2.1.1", "2.3", "1.4.9", "2.0.0", "1.6", "3.0", "0.9", "abc", "", "2"]
+
+
+def version_report_line(rng, payload: str, ack: int = 0) -> str:
+    """The gateway tells its version: the answer to the version query (I_VERSION, from the gateway's own id - or, since
+    the handler does not look at the sender, from any node), or the gateway's own presentation (node 0, system child)."""
+    form = rng.random()
+    if form < 0.6:
+        return f"0;255;3;{ack};2;{payload}"
+    if form < 0.75:
+        return f"{rng.choice((1, 2, 3, 9))};255;3;{ack};2;{payload}"
+    return f"0;255;0;{ack};{rng.choice((17, 18))};{payload}"
+
+
+# further strings from C05's corpus (one line, no field separator)
+REPORT_CORPUS = [v for v in gw.VERSION_CORPUS if v.isprintable() and ";" not in v and v == v.strip()]
+
+
+def older_types_history(rng, v_old: str, cross: bool, avoid_hb: bool, length: int, reports: float = 0.0):
     """A history whose message types all exist in `v_old`; started with the version known.
+
+    `reports`: the probability with which an operation is a VERSION REPORT (the version message exists in every
+    protocol, so it is a message type of the older one): a string of the table, one that resolves to a table version,
+    or one that does not resolve.  A report that resolves switches BOTH gateways to the same protocol - from then on they
+    must of course agree - but what the two hold at that moment (registry, the commands parked for sleeping nodes, the
+    record of presentation requests sent) has to survive the report alike on both, whichever of the two (or neither)
+    the report leaves on the protocol it already ran.
 
     `cross` (the pair spans 1.x -> 2.x, where the property excludes references to unknown nodes / children): the
     generator keeps an EXPECTATION of the registry (`reg`: node -> child keys) and draws senders, children and
@@ -2678,7 +2704,7 @@ def older_types_history(rng, v_old: str, cross: bool, avoid_hb: bool, length: in
     internal type) BEFORE its own presentation arrives.  The expectation only steers; what is inside the domain is
     decided by the oracle from the real registry (`_c19_out_of_scope`)."""
     to = proto_tables(v_old)
-    internal = [int(t) for t in to["internal"] if int(t) not in (2,)]  # no version reports: they would switch both gateways
+    internal = [int(t) for t in to["internal"] if int(t) not in (2,)]  # version reports: drawn separately (`reports`)
     if avoid_hb:
         internal = [t for t in internal if t != 22]
     if cross:
@@ -2721,6 +2747,13 @@ def older_types_history(rng, v_old: str, cross: bool, avoid_hb: bool, length: in
         else:
             c = rng.choice((0, 1, 2))
         faults = (rng.choice((False, True, gw.CANCEL)),) if rng.random() < 0.08 else ()
+        if reports and rng.random() < reports:
+            payload = rng.choice(REPORT_STRINGS[:len(lib.VERSIONS)] if rng.random() < 0.7 else REPORT_STRINGS + REPORT_CORPUS)
+            line = version_report_line(rng, payload, ack())
+            if line.startswith("0;255;0;"):
+                presented(0)
+            h.ops.append(("recv", line, (), gw.DEFAULT_TIME))
+            continue
         if rng.random() < 0.07:
             # a new node asks for an id: the handler registers a placeholder under the next free id
             h.ops.append(("recv", f"255;{rng.choice((255, 255, 4))};3;{ack()};{id_request};", faults, gw.DEFAULT_TIME))
@@ -2920,14 +2953,14 @@ def _c19_placeholder_steps(a: str, ops, ia, cut) -> int:
     return count
 
 
-def _c19_shrink(h: Hist, a: str, w: str) -> Hist:
+def _c19_shrink(h: Hist, a: str, w: str, view=None) -> Hist:
     """Greedy one-pass shrink of a history on which versions `a` and `w` differ: drop every operation without which
     the two runs still differ somewhere inside the property's domain (re-executed on the implementation and judged
     by `_c19_judge`: dropping the operation that registered a node puts the later traffic of that node outside the
     domain, so it stays).  Presentations are never dropped."""
     def differs(ops):
         ia, ib = gw.run_impl_many([Hist(a, h.metric, h.preload, ops), Hist(w, h.metric, h.preload, ops)])
-        return _c19_judge(a, w, ops, ia, ib)[0]
+        return _c19_judge(a, w, ops, ia, ib, view)[0]
 
     ops = list(h.ops)
     for k in range(len(ops) - 2, -1, -1):
@@ -3088,7 +3121,7 @@ def _c19_violation(corr: Corr, a: str, w: str, h: Hist, i: int, ia, ib, scenario
     cut = Hist(a, h.metric, h.preload, h.ops[:i])
     oa, ob = ia[i], ib[i]
     if shrink:
-        small = _c19_shrink(cut, a, w)
+        small = _c19_shrink(cut, a, w, view)
         ja, jb = gw.run_impl_many([small, Hist(w, small.metric, small.preload, small.ops)])
         d = _c19_judge(a, w, small.ops, ja, jb, view)[0]
         if d is not None and d == len(small.ops):
@@ -3100,7 +3133,9 @@ def _c19_violation(corr: Corr, a: str, w: str, h: Hist, i: int, ia, ib, scenario
             "older_obs": [str(x)[:300] for x in va], "newer_obs": [str(x)[:300] for x in vb]}
     if scenario:
         case["scenario"] = scenario
-    if view is not None:
+    if view is _c19_stated_only:
+        case["stated_observables_only"] = True      # the runs differ in outcome / writes / registry, not only in the buffers
+    elif view is not None:
         case["sleeping_flag_excepted"] = True
     if _c19_is_cross(a, w) and cut.ops:
         last, before = cut.ops[-1], ia[len(cut.ops) - 1]["nodes"]
@@ -3255,6 +3290,173 @@ def _c19_placeholders(corr: Corr, ctx, run) -> None:
                       "decided per step from the real registry before the step, not from the error raised")
 
 
+def version_report_histories(rng):
+    """What a gateway holds BETWEEN messages - the registry, the commands parked for sleeping nodes, the record of the
+    presentation requests it has sent - and a version report arriving in the middle of it.  The version message exists
+    in every protocol, so these are histories over the older protocol's types; a report that resolves leaves both
+    gateways of a pair on the same protocol, which for one of them may be the protocol it already ran and for the other
+    a change (the reported version equals the older one's, the newer one's, a third one's, or does not resolve).
+
+    Scenarios (node / child ids, value types, payloads, ack flags drawn per history):
+      * `parked, asleep by heartbeat` (2.0 types; 2.0 / 2.1): a node presents itself and children, a heartbeat response
+        puts it to sleep, set commands are sent to it (held), the next heartbeat response releases them, another command
+        is held and released;
+      * `request sent` (2.0 types; 2.0 / 2.1 / 2.2): a node that is not in the registry sends values and a sketch name
+        (ONE presentation request), a second such node, the first one presents itself, then a value for a child it
+        has not presented, then the child;
+      * `parked, asleep at the start` (1.4 types; all five versions): a node restored as sleeping; set commands are sent
+        to it (held, a later one replacing an earlier one under the same key), one goes past the buffer, the node reports;
+      * `parked and request sent` (2.0 types without the heartbeat response; 2.0 / 2.1 / 2.2): both at once.
+    The report - the answer to the version query or the gateway's own presentation - is inserted at EVERY position of
+    the scenario (before anything is held, between parking and release, between the request and the node's next
+    message, at the end) for every version of the table, and at two positions for each further string.
+    Yields (history without version, versions to run it under, label)."""
+    vs = lib.VERSIONS
+    T0 = gw.DEFAULT_TIME
+
+    def names_of(a0: str) -> dict:
+        return {nm: int(t) for t, nm in proto_tables(a0)["internal"].items()}
+
+    def scenario(kind: str):
+        h = Hist(None, rng.random() < 0.5)
+        ops = h.ops
+        n = rng.randint(1, 250)
+        c1, c2 = rng.sample((0, 1, 2, 7, 254), 2)
+        t1, t2 = rng.sample((0, 2, 3, 16), 2)
+        ack = lambda: 1 if rng.random() < 0.2 else 0  # noqa: E731
+        val = lambda: rng.choice(("1", "0", "21.5", "", "on"))  # noqa: E731
+
+        def recv(line: str) -> None:
+            ops.append(("recv", line, (), T0))
+
+        def send(node: int, c: int, t: int, buffer: bool = True) -> None:
+            ops.append(("send", (node, c, 1, ack(), t, val()), buffer, ()))
+
+        if kind == "parked, asleep by heartbeat":
+            nm = names_of("2.0")
+            hb = nm["I_HEARTBEAT_RESPONSE"]
+            if rng.random() < 0.5:
+                recv(f"{n};255;0;0;17;2.0")
+            else:
+                h.preload.append(("node", n, 17, "2.0", "Sk", "1.0", 0, 0, False, False))
+            for c in (c1, c2):
+                recv(f"{n};{c};0;0;{rng.choice((3, 6))};d")
+            recv(f"{n};255;3;{ack()};{hb};{rng.randint(0, 999)}")
+            send(n, c1, t1)
+            send(n, c2, t2)
+            recv(f"{n};255;3;{ack()};{hb};{rng.randint(0, 999)}")
+            recv(f"{n};255;3;0;{nm['I_BATTERY_LEVEL']};{rng.randint(0, 100)}")
+            send(n, c1, t2)
+            recv(f"{n};255;3;0;{hb};{rng.randint(0, 999)}")
+            return h, ("2.0", "2.1")
+        if kind == "request sent":
+            nm = names_of("2.0")
+            u, u2 = rng.sample(range(1, 250), 2)
+            recv(f"{u};{c1};1;{ack()};{t1};{val()}")
+            recv(f"{u};{c1};1;0;{t1};{val()}")
+            recv(f"{u};255;3;0;{nm['I_SKETCH_NAME']};sketch")
+            recv(f"{u2};{c2};2;0;{t2};")
+            recv(f"{u};{c2};1;0;{t2};{val()}")
+            recv(f"{u};255;0;0;17;2.0")
+            recv(f"{u};{c1};1;0;{t1};{val()}")
+            recv(f"{u};{c1};0;0;6;d")
+            recv(f"{u2};255;3;0;{nm['I_BATTERY_LEVEL']};50")
+            return h, ("2.0", "2.1", "2.2")
+        if kind == "parked, asleep at the start":
+            nm = names_of("1.4")
+            h.preload.append(("node", n, 17, "1.4", "Sk", "1.0", 40, 0, False, True))
+            for c in (c1, c2):
+                h.preload.append(("child", n, c, c, 3, "d"))
+            send(n, c1, t1)
+            send(n, c2, t2)
+            recv(f"{n};{c1};1;{ack()};{t1};{val()}")
+            send(n, c1, t1)
+            send(n, c2, t1, buffer=False)
+            recv(f"{n};255;3;0;{nm['I_BATTERY_LEVEL']};{rng.randint(0, 100)}")
+            send(n, c2, t2)
+            return h, tuple(vs)
+        assert kind == "parked and request sent"
+        nm = names_of("2.0")
+        u = n + 1
+        h.preload.append(("node", n, 17, "2.0", "", "", 0, 0, False, True))
+        h.preload.append(("child", n, c1, c1, 3, ""))
+        send(n, c1, t1)
+        recv(f"{u};{c1};1;0;{t1};{val()}")
+        send(n, c1, t2)
+        recv(f"{u};255;3;0;{nm['I_SKETCH_VERSION']};1.0")
+        recv(f"{n};{c1};2;0;{t1};")
+        send(n, c1, t1)
+        recv(f"{u};{c2};1;0;{t1};{val()}")
+        return h, ("2.0", "2.1", "2.2")
+
+    for kind in ("parked, asleep by heartbeat", "request sent", "parked, asleep at the start", "parked and request sent"):
+        for payload in REPORT_STRINGS:
+            probe, _ = scenario(kind)
+            every = list(range(len(probe.ops) + 1))
+            for pos in (every if payload in vs else rng.sample(every[1:], 2)):
+                h, A = scenario(kind)
+                pos = min(pos, len(h.ops))
+                h.ops.insert(pos, ("recv", version_report_line(rng, payload), (), T0))
+                yield h, A, f"version report {payload!r} at position {pos}: {kind}"
+
+
+def _c19_stated_only(obs):
+    """The observation restricted to what the property's text names: yielded message or error, writes, registry."""
+    out, writes, nodes, _ibuf, _sbuf = obs
+    return (out, writes, nodes, "", "")
+
+
+def _c19_report(corr: Corr, a: str, w: str, h: Hist, i: int, ia, ib, scenario=None, shrink=False) -> None:
+    """The runs under `a` and `w` differ at step `i` (in the full observation).  Where they also differ in what the
+    property's text names (outcome, writes, registry) the history up to THAT step is reported; else the history up to the
+    first step at which the buffers differ."""
+    j = _c19_judge(a, w, h.ops, ia, ib, _c19_stated_only)[0]
+    if j is not None:
+        _c19_violation(corr, a, w, h, j, ia, ib, scenario, shrink=shrink, view=_c19_stated_only)
+    else:
+        _c19_violation(corr, a, w, h, i, ia, ib, scenario, shrink=shrink)
+
+
+def _c19_version_reports(corr: Corr, ctx, run, before=([], [])):
+    """A version report in the middle of held state, under every version the scenario's types exist in and judged for
+    every ordered pair.  `run(hists, with_model)` executes `before` + these runs and returns the implementation's traces;
+    the traces of `before` are returned."""
+    rng = lib.rng_for(ctx.seed, "c19-version-report")
+    rounds = 1 if ctx.tier == "quick" else 8
+    base = [x for _ in range(rounds) for x in version_report_histories(rng)]
+    hists, index, with_model = [], [], []
+    for k, (h, A, label) in enumerate(base):
+        index.append(len(hists))
+        hists += [Hist(v, h.metric, h.preload, h.ops) for v in A]
+        with_model += [ctx.tier != "quick" or j == k % len(A) for j in range(len(A))]
+    corr.count("version-report:runs", len(hists))
+    corr.count("version-report:runs also compared with the model", sum(with_model))
+    more, more_model = before
+    impl_all = run(list(more) + hists, list(more_model) + with_model)
+    impl = impl_all[len(more):]
+    shrunk = 0
+    for (h, A, label), first in zip(base, index):
+        for x, a in enumerate(A):
+            for y in range(x + 1, len(A)):
+                w = A[y]
+                ia, ib = impl[first + x], impl[first + y]
+                i, cut, why = _c19_judge(a, w, h.ops, ia, ib)
+                if i is not None:
+                    _c19_report(corr, a, w, h, i, ia, ib, label, shrink=shrunk < 3)
+                    shrunk += 1
+                judged = len(h.ops) if cut is None else cut
+                corr.case(("version-report", a, w, first), True,
+                          {"older": a, "newer": w, "scenario": label, "ops": len(h.ops), "judged": judged} if first % 97 == 0 else None)
+                corr.count(f"version-report:{a}->{w}:histories")
+                corr.count(f"version-report:{a}->{w}:steps judged", judged)
+    corr.notes.append("version reports inside the history: the answer to the version query / the gateway's own presentation, "
+                      "carrying every version of the table (and strings that resolve to one, or to none), at every position of "
+                      "scenarios in which the gateway holds something between messages (commands parked for a sleeping node, a "
+                      "presentation request already sent); judged for every ordered pair of the versions the scenario's types "
+                      "exist in; also in a third of the random paired histories")
+    return impl_all[:len(more)]
+
+
 def _c19_type_grid(corr: Corr, ctx, extra=None):
     """Every (child type, value type) cell of the older protocol's tables, under every ordered pair of versions.
     `extra` = (histories, with_model): further runs executed in the same batch (one round of parallel model drivers);
@@ -3327,7 +3529,8 @@ def run_c19(ctx) -> Corr:
     hists, meta = [], []
     for (a, bver, cross) in pairs:
         for i in range(n):
-            base = older_types_history(rng, a, cross, avoid_hb=(bver == "2.2" and a != "2.2"), length=rng.randint(5, 35))
+            base = older_types_history(rng, a, cross, avoid_hb=(bver == "2.2" and a != "2.2"), length=rng.randint(5, 35),
+                                       reports=0.06 if i % 3 == 2 else 0.0)
             for v in (a, bver):
                 hists.append(Hist(v, base.metric, base.preload, base.ops))
             meta.append((a, bver, cross))
@@ -3348,7 +3551,7 @@ def run_c19(ctx) -> Corr:
         ha, ia, ib = hists[2 * j], impl[2 * j], impl[2 * j + 1]
         i, cut, why = _c19_judge(a, bver, ha.ops, ia, ib)
         if i is not None:
-            _c19_violation(corr, a, bver, ha, i, ia, ib, shrink=shrunk < 2)
+            _c19_report(corr, a, bver, ha, i, ia, ib, shrink=shrunk < 2)
             shrunk += 1
         if cross:
             corr.count(f"pair:{a}->{bver}:steps judged", len(ha.ops) if cut is None else cut)
@@ -3397,5 +3600,6 @@ def run_c19(ctx) -> Corr:
         o = gw.run_impl(h)[1]
         if o["nodes"][1]["sleeping"] != sleeps or o["nodes"][1]["hb"] != 9:
             corr.violate("heartbeat response: the one stated difference between 2.0/2.1 and 2.2 is not as stated", {"version": v})
-    _c19_placeholders(corr, ctx, lambda hs, wm: _c19_type_grid(corr, ctx, extra=(hs, wm)))
+    _c19_placeholders(corr, ctx, lambda hs, wm: _c19_version_reports(
+        corr, ctx, lambda hs2, wm2: _c19_type_grid(corr, ctx, extra=(hs2, wm2)), before=(hs, wm)))
     return corr
